@@ -1,6 +1,6 @@
 """Property -> rules table. Each rule callable: (prog, tier, repo) -> [RuleResult]."""
 from .rules import traversal_instances as TI
-from .rules import gate, lookup_unwrap, heap, witness, incremental, optimizer, const_arith, shape, backend, printer_rules, comment_linear, enum_evidence
+from .rules import gate, lookup_unwrap, heap, witness, incremental, optimizer, const_arith, shape, backend, printer_rules, comment_linear, enum_evidence, ssa_shared
 
 PROPERTIES = {}
 
@@ -86,8 +86,10 @@ prop('C11', COMMON +
 
 prop('C15', COMMON +
      'TRAVERSAL/SIBLING: the renamer and the scope analysis visit every identifier-, expression- and pattern-bearing '
-     'child of every node.',
-     [TI.make(['T-ren', 'T-ssa'])])
+     'child of every node. SSA-SHARED: the definition/uses records of the services crate are built only from the '
+     'fields of the checker\'s SsaAnalysisResult, which is only obtained from perform_ssa_analysis_on_module (no second '
+     'scope resolver). Does not decide capture-freedom of the new name or behavioural identity after rename.',
+     [ssa_shared.run, TI.make(['T-ren', 'T-ssa'])])
 
 # properties whose reports on the unchanged tree are not yet triaged are not claimed
 import os as _os
